@@ -22,12 +22,14 @@ EXTENDS Integers, Sequences, FiniteSets, TLC, TopicMatch
 
 CONSTANTS Conns,      \* connection instances ("k1", "k2", ...)
           SKeys,      \* session keys: "s:<client id>" (persistent) or "t:<conn>" (temporary)
-          Report      \* TRUE in trace validation: a failing tagged guard is printed (attribution)
+          Report,     \* TRUE in trace validation: a failing tagged guard is printed (attribution)
+          Checked     \* design checking: names of the guards whose failure is an error (TLC Assert) instead of a disabled step
 
 \* Tagged guard: in design checking it is just its condition; in trace validation a failure is reported
 \* with the property tag, the guard name and the position of the event being consumed (TLC register 2).
 G(tag, name, cond) ==
   IF cond THEN TRUE
+  ELSE IF name \in Checked THEN Assert(FALSE, <<"DESIGN-VIOLATION", tag, name>>)
   ELSE (IF Report THEN PrintT(<<"GUARD-FAILED", tag, name, TLCGet(2)>>) ELSE TRUE) /\ FALSE
 
 VARIABLES link,    \* [Conns -> "none" | "up" | "pclosed" | "gclosed" | "dead"]
@@ -66,7 +68,7 @@ Dq0 == [pc |-> "off", msg |-> NoMsg, gs |-> {}, id |-> 0]
 Ctx0 == [on |-> FALSE, msg |-> NoMsg, todo |-> {}, src |-> ""]
 Sess0 == [exists |-> FALSE, temp |-> FALSE, cid |-> "", subs |-> {}, tq |-> <<>>, sq |-> <<>>, out |-> <<>>, inc |-> {}, next |-> 1, active |-> ""]
 
-Init ==
+InitBase ==
   /\ link = [c \in Conns |-> "none"]
   /\ up = [c \in Conns |-> <<>>]
   /\ down = [c \in Conns |-> <<>>]
@@ -78,9 +80,9 @@ Init ==
   /\ pubctx = [c \in Conns |-> Ctx0]
   /\ sess = [k \in SKeys |-> Sess0]
   /\ retained = {}
-  /\ cfg = [window |-> 10, queue |-> 100, pubpar |-> 10, subpar |-> 10, auth |-> FALSE, ackmode |-> ""]
   /\ closing = FALSE
   /\ ghost = [handed |-> <<>>, acked |-> {}, willpub |-> <<>>]
+Init == InitBase /\ cfg = [window |-> 10, queue |-> 100, pubpar |-> 10, subpar |-> 10, auth |-> FALSE, ackmode |-> ""]
 
 Config(window, queue, pubpar, subpar, auth, ackmode) ==
   /\ cfg' = [window |-> window, queue |-> queue, pubpar |-> pubpar, subpar |-> subpar, auth |-> auth, ackmode |-> ackmode]
